@@ -4,13 +4,13 @@ CONSTANTS
   Vals = {"a", "b"}
   Errs = {"e1", "e2"}
   Invs = {"i1"}
-  Conns = {"c1", "c2"}
-  OmitChoices = {0, 2, 999999999}
-  InitStamps = {0, 1}
+  Conns = {"c1"}
+  OmitChoices = {2}
+  InitStamps = {0}
   NoDefault = {"p1"}
-  InitScopeSets = {{}, {"all"}}
-  ActScopes = {"all", "p1"}
-  MaxNow = 4
+  InitScopeSets = {{"all"}}
+  ActScopes = {"p1"}
+  MaxNow = 3
 CONSTRAINT TimeBound
 INVARIANT TypeOK
 INVARIANT StreamReconstructs
